@@ -196,7 +196,8 @@ class Desugarer:
     def splice(self, B, clos, args, dest_place, target, span):
         """Splice the closure body; returns the entry block. args: operands for the closure's
         parameters; dest_place receives the result; control continues at `target`."""
-        cpath, upvars, _cl = clos
+        cpath, upvars, _cl = clos[:3]
+        env_place = clos[3] if len(clos) > 3 else None
         if cpath.startswith('extern:'):
             fn = cpath[len('extern:'):]
             B.expanded.append(cpath)
@@ -230,6 +231,10 @@ class Desugarer:
                 q = list(p)
                 if q and q[0] == 'deref':
                     q = q[1:]
+                if env_place is not None:
+                    # the closure value lives in a place of the host (a captured closure): its captures are
+                    # fields of that place
+                    return {'l': env_place['l'], 'p': list(env_place['p']) + q}
                 if q and isinstance(q[0], dict) and 'f' in q[0] and q[0]['f'] < len(upvars) and \
                         upvars[q[0]['f']].get('k') in ('move', 'copy'):
                     up = upvars[q[0]['f']]['place']
@@ -739,6 +744,21 @@ class Desugarer:
             kind = _is(callee, DIRECT_CALLS) or _is(t.get('decl', ''), DIRECT_CALLS)
             if kind and t['args']:
                 clos = self.closure_of(B, t['args'][0])
+                if clos is None and callee in self.raw and self.raw[callee]['kind'] == 'Closure' and \
+                        callee != B.j['path']:
+                    # a closure that was created elsewhere (in the enclosing function), captured by this body
+                    # and called here: the callee is known from the type; its environment is the place called
+                    a0 = t['args'][0]
+                    envp = None
+                    if a0.get('k') in ('move', 'copy'):
+                        if a0['place']['p']:
+                            envp = a0['place']
+                        else:
+                            d = B.one_def(a0['place']['l'])
+                            if d is not None and d[0] == 'stmt' and d[2]['rv']['k'] == 'ref':
+                                envp = d[2]['rv']['place']
+                    if envp is not None:
+                        clos = (callee, None, None, envp)
                 if clos and self.should_expand(clos[0], kind, B.j):
                     if self.expand_direct(B, bi, t, clos):
                         return True
